@@ -209,6 +209,7 @@ func c07R1Index(c *Ctx) {
 		isNodeKey := func(v ssa.Value, e *c05Env) bool { return c07KeyOfE(v, e, isNode) }
 		// nodes[key(node)] = node and successors[key(node)] = fresh set, on every successful path
 		var succSets []ssa.Value
+		var succSetFns []*ssa.Function
 		nodeRec := c05PassSpec{Instr: func(in ssa.Instruction, e *c05Env) bool {
 			mu, ok := in.(*ssa.MapUpdate)
 			if !ok || !c07MapOfE(mu.Map, "nodes", e) || !isNodeKey(mu.Key, e) {
@@ -222,13 +223,14 @@ func c07R1Index(c *Ctx) {
 			if !ok || !c07MapOfE(mu.Map, "successors", e) || !isNodeKey(mu.Key, e) {
 				return false
 			}
-			x, _ := e.up(mu.Value)
+			x, xat := e.up(mu.Value)
 			for _, r := range Roots(x) {
 				if c07IsSetNew(r) == nil {
 					return false
 				}
 			}
 			succSets = append(succSets, x)
+			succSetFns = append(succSetFns, xat.Fn)
 			return true
 		}}
 		nodeCut, succCut := c05PassCut(root, nodeRec), c05PassCut(root, succRec)
@@ -248,14 +250,15 @@ func c07R1Index(c *Ctx) {
 		// the traversal of S (any loop form, range-over-func included)
 		var it *c05Iter
 		nIt := 0
-		for _, e := range c05TreeEnvs(root, 1) {
-			if e.Iter != nil {
-				continue
+		// (in the index step itself or in a helper it hands the successors to: fetch + locked link)
+		for _, e := range c05TreeEnvs(root, 2) {
+			if e.Iter != nil || (e.Call == nil && !e.isRoot()) {
+				continue // closures (iterator producers, loop bodies) are reached through the traversal that uses them
 			}
 			for _, x := range c05ItersIn(e) {
 				nIt++
-				if bs := x.Base(); bs != nil && bs.Kind == "slice" {
-					if w, wat := bs.CollAt.up(bs.Coll); wat.isRoot() && SameValue(w, S) && x.In.isRoot() {
+				if bs := x.Base(); bs != nil && bs.Kind == "slice" && it == nil {
+					if w, wat := bs.CollAt.up(bs.Coll); wat.isRoot() && SameValue(w, S) {
 						it = x
 					}
 				}
@@ -270,8 +273,9 @@ func c07R1Index(c *Ctx) {
 			continue
 		}
 		okL := it.Exact()
+		entryCut := c05PassCut(root, c05PassSpec{Instr: func(in ssa.Instruction, e *c05Env) bool { return in == it.Entry() && e.Fn == it.In.Fn }})
 		for _, a := range c05MaybeNilAtoms(fn) {
-			if !c05AtomMustPass(a, newCut().Instr(it.Entry())) {
+			if !c05AtomMustPass(a, entryCut) {
 				okL = false
 			}
 		}
@@ -295,11 +299,8 @@ func c07R1Index(c *Ctx) {
 				return false
 			}
 			recv, at := e.up(call.Call.Args[0])
-			if !at.isRoot() {
-				return false
-			}
-			for _, ss := range succSets {
-				if SameValue(recv, ss) {
+			for i, ss := range succSets {
+				if at.Fn == succSetFns[i] && SameValue(recv, ss) {
 					return true
 				}
 			}
